@@ -274,6 +274,15 @@ pub fn window(tier: Tier, lo: usize, hi_quick: usize, hi_thorough: usize) -> Box
 pub fn dyadic_scale() -> BoxedStrategy<Rat> {
     prop_oneof![Just(Rat(1, 1)), Just(Rat(1, 8)), Just(Rat(1, 64))].boxed()
 }
+/// dyadic grids over a wide range of units (2^-50 .. 2^20): the definitions are homogeneous, so an absolute threshold
+/// or a hard-coded level anywhere in a view shows up as a mismatch with the reference at the tiny or the huge unit
+pub fn dyadic_scale_wide() -> BoxedStrategy<Rat> {
+    prop_oneof![
+        2 => Just(Rat(1, 1)), 2 => Just(Rat(1, 8)), 2 => Just(Rat(1, 64)),
+        1 => Just(Rat(1, 1 << 30)), 1 => Just(Rat(1, 1 << 50)), 1 => Just(Rat(1 << 20, 1))
+    ]
+    .boxed()
+}
 /// decimal (not exactly representable) grid scales
 pub fn decimal_scale() -> BoxedStrategy<Rat> {
     prop_oneof![Just(Rat(1, 10)), Just(Rat(1, 100)), Just(Rat(1, 1000)), Just(Rat(3, 1000)), Just(Rat(7, 10))].boxed()
